@@ -543,18 +543,20 @@ impl CompositionGraph {
             "invalid package id"
         );
 
-        // Remove exports and definitions associated with the package before
-        // removing nodes, as retain_nodes invalidates the node indices.
-        self.exports
-            .retain(|_, n| self.graph[*n].package != Some(package));
-        self.defined
-            .retain(|_, n| self.graph[*n].package != Some(package));
-        self.imports
-            .retain(|_, n| self.graph[*n].package != Some(package));
-
-        // Remove all nodes associated with the package
-        self.graph
-            .retain_nodes(|g, i| g[i].package != Some(package));
+        // Remove all nodes associated with the package; `remove_node` also
+        // removes their dependants and their export, import and definition
+        // entries, and unsets the arguments they satisfied on the
+        // instantiations that remain in the graph.
+        for index in self
+            .graph
+            .node_indices()
+            .filter(|i| self.graph[*i].package == Some(package))
+            .collect::<Vec<_>>()
+        {
+            if self.graph.contains_node(index) {
+                self.remove_node(NodeId(index));
+            }
+        }
 
         // Remove the package from the package map
         let entry = &mut self.packages[package.index];
